@@ -83,6 +83,9 @@ class ProgGen:
       return f'relu({e()}, gain={e()})' if r.random() < 0.5 else f'relu(x={e()})'
     if x < 0.6:
       return f'scale({e()}, {e()}, c={e()}, k={e()})' if r.random() < 0.5 else f'scale({e()}, *({e()}, {e()}, {e()}))'
+    if x < 0.63:
+      # a partial that binds nothing is still a (new) partial object
+      return r.choice(['functools.partial(Dec)', 'functools.partial(relu)', '[functools.partial(Dec), functools.partial(Dec)]'])
     if x < 0.67:
       return f'functools.partial(relu, gain={e()})' if r.random() < 0.5 else f'functools.partial(Dec, {e()}, opts={e()})'
     if x < 0.72:
@@ -155,6 +158,8 @@ def cases(tier, r):
     yield 'program', {'seed': r.getrandbits(48), 'control_flow': r.random() < 0.4, 'arg': r.choice([0, 1, 2, 5])}
   for i in range(8 if tier == 'quick' else 40):
     yield 'method', {'method': True, 'seed': i, 'arg': i % 3}
+  for i in range(6 if tier == 'quick' else 40):
+    yield 'lambdas', {'lambdas': True, 'seed': r.getrandbits(32), 'same_line': i % 3 != 2}
 
 
 _counter = [0]
@@ -229,8 +234,50 @@ def attempt(thunk):
     return {'raised': type(e).__name__}
 
 
+def run_lambdas(case):
+  """Lambdas as auto_config functions, several of them on one source line: each is either
+  rejected when it is decorated, or faithful to ITS OWN body."""
+  r = random.Random(case['seed'])
+  us = r.sample(range(1, 30), 3)
+  sep = ', ' if case['same_line'] else ',\n            '
+  params = r.choice(['', 'n=2'])
+  body = lambda u: f'Enc(units={u}, act=relu(x={"n" if params else u}))'
+  src = HEADER + 'VARIANTS = {' + sep.join(f"'v{i}': lambda {params}: {body(u)}" for i, u in enumerate(us)) + '}\n'
+  obs = {'src': src, 'lambdas': True, 'problems': []}
+  try:
+    mod, d, name = load(src)
+  except Exception as e:
+    obs['load'] = f'{type(e).__name__}: {e}'[:200]
+    return obs, None
+  try:
+    for k, fn in mod.VARIANTS.items():
+      try:
+        ac = auto_config.auto_config(fn)
+      except Exception:
+        continue                      # rejected loudly when decorating: fine
+      plain = attempt(fn)
+      del targets.LOG[:]
+      try:
+        cfg = ac.as_buildable()
+        n_inv = len(targets.LOG)
+        built = attempt(lambda: fdl.build(cfg))
+      except Exception as e:
+        obs['problems'].append([k, f'as_buildable/build raised {type(e).__name__}'])
+        continue
+      if n_inv:
+        obs['problems'].append([k, 'as_buildable invoked configurable callables'])
+      if built != plain:
+        obs['problems'].append([k, 'build(as_buildable()) differs from calling the lambda', built, plain])
+  finally:
+    sys.modules.pop(name, None)
+    shutil.rmtree(d, ignore_errors=True)
+  return obs, None
+
+
 def execute(case):
   obs = {}
+  if case.get('lambdas'):
+    return run_lambdas(case)
   if case.get('method'):
     # auto_config'd methods, also on a falsy (empty) instance
     st = base.Stack(case['arg'] + 1)
@@ -338,6 +385,11 @@ def compare(real, model):
 def oracle(case, real):
   if 'load' in real:
     return None          # program outside the supported subset (rejected when decorating)
+  if real.get('lambdas'):
+    if real['problems']:
+      return {'what': 'an auto_config lambda is not faithful to its own body', 'problems': real['problems'][:3],
+              'src': real['src']}
+    return None
   if real['direct'] != real['plain']:
     return {'what': 'calling the decorated function differs from calling the undecorated function',
             'plain': real['plain'], 'decorated': real['direct'], 'src': real['src']}
